@@ -51,8 +51,79 @@ let show_event (e : event) : string =
   | EClose _ -> "close"
   | EOutOfFuel -> "fuel"
 
+
+(* ---------- user-defined structure types (UserTypes.v) ----------
+   declarations, space separated:   #Name=<type>   a defined non-struct type and its underlying type
+                                    Name{f;f;...}  a struct; f = [.]fieldname=<type>=<annotation or ~>   (. = unexported)
+   <type> = int32 int64 enum bool bytes string time duration iface tag  []<type>  @Name  ?<description of any other type> *)
+let rec parse_gty (s : string) : gty =
+  let n = String.length s in
+  if n >= 2 && String.sub s 0 2 = "[]" then TSliceOf (parse_gty (String.sub s 2 (n - 2)))
+  else if n >= 1 && s.[0] = '@' then TNamed (coqstr (String.sub s 1 (n - 1)))
+  else if n >= 1 && s.[0] = '?' then TOther (coqstr (String.sub s 1 (n - 1)))
+  else match s with
+    | "int32" -> TInt32 | "int64" -> TInt64 | "enum" -> TEnum | "bool" -> TBool | "bytes" -> TBytes
+    | "string" -> TString | "time" -> TTime | "duration" -> TDuration | "iface" -> TIface | "tag" -> TTagTy
+    | _ -> failwith ("type " ^ s)
+
+let parse_decls (s : string) : (char list * gty) list * rawstruct list =
+  let named = ref [] and structs = ref [] in
+  List.iter (fun d ->
+      if d = "" then ()
+      else if d.[0] = '#' then begin
+        match String.index_opt d '=' with
+        | Some i -> named := (coqstr (String.sub d 1 (i - 1)), parse_gty (String.sub d (i + 1) (String.length d - i - 1))) :: !named
+        | None -> failwith "defined type"
+      end else begin
+        match String.index_opt d '{' with
+        | Some i when d.[String.length d - 1] = '}' ->
+            let name = String.sub d 0 i in
+            let body = String.sub d (i + 1) (String.length d - i - 2) in
+            let fields = List.map (fun f ->
+                match String.split_on_char '=' f with
+                | [ fname; ty; ann ] ->
+                    let unexp = String.length fname > 0 && fname.[0] = '.' in
+                    let fname = if unexp then String.sub fname 1 (String.length fname - 1) else fname in
+                    { rf_name = coqstr fname; rf_exported = not unexp; rf_type = parse_gty ty;
+                      rf_has_ann = (ann <> "~"); rf_ann = coqstr (if ann = "~" then "" else ann) }
+                | _ -> failwith ("field " ^ f)) (split_on ';' body) in
+            structs := { rs_name = coqstr name; rs_file = coqstr "user"; rs_fields = fields } :: !structs
+        | _ -> failwith ("declaration " ^ d)
+      end) (split_on ' ' s);
+  (List.rev !named, List.rev !structs)
+
+let show_desc (r : sdesc res) : string =
+  match r with
+  | RErr _ -> "err"
+  | ROk sd ->
+      String.concat " " (("tag=" ^ hex_of_n sd.sd_tag) ::
+        List.map (fun f ->
+            let typ, dyn = match f.fd_typ with
+              | FPrim k -> (hex_of_n (type_code k), false)
+              | FStruct _ -> (hex_of_n tc_structure, false)
+              | FDyn -> (hex_of_n tc_structure, true) in
+            Printf.sprintf "%s:%s:%s:%b:%b:%b:%b" (ocamlstr f.fd_name) (hex_of_n f.fd_tag) typ f.fd_req f.fd_slice f.fd_skip dyn)
+          sd.sd_fields)
+
+let handle_user (cmd : string) (rest : string) : string =
+  match String.split_on_char '|' rest with
+  | [ decls; arg ] ->
+      let named, structs = parse_decls (String.trim decls) in
+      let arg = String.trim arg in
+      (match cmd with
+       | "udesc" -> show_desc (user_desc named structs (coqstr arg))
+       | "uenc" -> (match user_enc named structs (val_of_string arg) with Some b -> "ok " ^ hex_of_bytes b | None -> "err")
+       | "udec" ->
+           let ty, hex = split1 arg in
+           (match user_dec named structs (coqstr ty) (bytes_of_hex hex) with
+            | Ok (((v, _), st)) -> Printf.sprintf "ok %s %d" (show_val v) (List.length st.rest)
+            | ErrEOF -> "eof" | Err -> "err" | OutOfFuel -> "fuel")
+       | _ -> "unknown-command " ^ cmd)
+  | _ -> "driver-error user-type syntax"
+
 let handle (cmd : string) (rest : string) : string =
   match cmd with
+  | "udesc" | "uenc" | "udec" -> handle_user cmd rest
   | "session" ->
       (match String.split_on_char '|' rest with
        | [ c; sc; inp ] ->
@@ -93,7 +164,7 @@ let handle (cmd : string) (rest : string) : string =
       let (acts, res) = serve (conv toks) in
       let show_act = function
         | Sleep d -> Printf.sprintf "sleep:%d" (int_of_n d)
-        | ServeConn i -> Printf.sprintf "serve:%d" (int_of_nat i)
+        | ServeConn i -> Printf.sprintf "serve:%08x" (int_of_n (session_id i))   (* the id the session's handlers see *)
         | CloseLate i -> Printf.sprintf "late:%d" (int_of_nat i) in
       String.concat "," (List.map show_act acts) ^ "|" ^ (match res with ARNil -> "nil" | ARErr -> "err" | ARRunning -> "running")
   | "clientlife" ->
@@ -195,7 +266,7 @@ let handle (cmd : string) (rest : string) : string =
             | _ -> failwith "token" in
           states := uniq (List.concat_map (fun s -> explore (apply_all s labels)) !states))
         rest;
-      let show_sh s = match s.s_pc with SNotCalled -> "notcalled" | SReturned RNil -> "nil" | SReturned RCtx -> "ctx" | SReturned RErr -> "err" | _ -> "pending" in
+      let show_sh s = match s.s_pc with SNotCalled -> "notcalled" | SReturned RNil -> "nil" | SReturned RCtx -> "ctx" | SReturned RErr0 -> "err" | _ -> "pending" in
       let show_serve s = match s.a_pc with AReturned RNil -> "nil" | AReturned _ -> "err" | _ -> "running" in
       let show_conn = function SNone -> "none" | SRegistered | SRunning -> "running" | SInFlight -> "inflight" | SClosed | SEnded -> "ended" | SLateClosed -> "late" in
       let count c l = List.length (List.filter (fun x -> int_of_nat x = c) l) in
